@@ -663,6 +663,7 @@ class Body:
 # evaluation of operands / rvalues into terms
 
 ENUMS = {}   # enum type string -> (variant names, discriminant values), filled while evaluating
+_OPTION_TRIES = set()   # terms (try x) where x is an Option: `x?` is read as the match on x it abbreviates
 
 STD_ENUMS = {
     "std::option::Option": ["None", "Some"],
@@ -739,6 +740,8 @@ class Evaluator:
                         end = T("binop", "Sub", T("len", xs), one)
                         return T("tuple", (T("index", xs, end), T("index", xs, T("agg", "std::ops::Range", "Range", (T("const", T("int", 0, "usize")), end), ("start", "end")))))
                     return T("tuple", (T("index", xs, T("const", T("int", 0, "usize"))), T("index", xs, T("agg", "std::ops::RangeFrom", "RangeFrom", (one,), ("start",)))))
+                if inner and inner[0] == "try" and idx == 0 and t[2] == "Continue" and inner in _OPTION_TRIES:
+                    return self._field(T("variant", inner[1], "Some"), "0", 0)       # the payload of `opt?` is the payload of Some
                 if inner and inner[0] == "try" and idx == 0:
                     src = inner[1]
                     if t[2] == "Continue" and isinstance(src, tuple) and src and src[0] == "agg" and len(src) > 3 and src[2] in ("Ok", "Some") and src[3]:
@@ -944,6 +947,8 @@ class Evaluator:
         if m == "index_mut" and len(args) == 2 and "IndexMut" in name:
             return T("index", args[0], args[1])
         if m == "branch" and "Try" in name:
+            if name.startswith("<std::option::Option<"):
+                _OPTION_TRIES.add(T("try", args[0]))      # `opt?`: Continue <=> Some, Break <=> None (see _switch_edges/_field)
             return T("try", args[0])
         if m == "from_residual":
             return T("from_residual", args[0])
@@ -1751,16 +1756,6 @@ class Walker:
             names, discrs = ENUMS.get(atom[2], ((), ()))
             place = atom[1]
             a2 = T("variantof", place)
-            sp = _split_call(place)
-            if sp is not None:
-                # split_last()/split_first() is None exactly when the slice is empty: the same atom as `xs.len() == 0`
-                em = T("empty", sp[1])
-                for v, b in targets:
-                    edges.append((em, v == 0, b, ("eq", v)))
-                if len(targets) == 1 and not self._is_unreachable(other):
-                    edges.append((em, targets[0][0] != 0, other, ("other", (targets[0][0],))))
-                return edges
-
             def nm(v):
                 if discrs:
                     for i, dv in enumerate(discrs):
@@ -1771,6 +1766,38 @@ class Walker:
                     if atom[2].startswith(pref) and v < len(vs):
                         return vs[v]
                 return "#%d" % v
+            if place in _OPTION_TRIES:
+                # `opt?`: the ControlFlow it is turned into mirrors the Option
+                inner_edges = []
+                a3 = T("variantof", place[1])
+                spo = _split_call(place[1])
+                for v, b in targets:
+                    nmv = nm(v)
+                    val = {"Continue": "Some", "Break": "None"}.get(nmv, nmv)
+                    if spo is not None:
+                        inner_edges.append((T("empty", spo[1]), val == "None", b, ("eq", v)))
+                    else:
+                        inner_edges.append((a3, val, b, ("eq", v)))
+                if len(targets) == 1 and not self._is_unreachable(other):
+                    nmv = nm(targets[0][0])
+                    val = {"Continue": "None", "Break": "Some"}.get(nmv)
+                    if val is not None:
+                        if spo is not None:
+                            inner_edges.append((T("empty", spo[1]), val == "None", other, ("other", (targets[0][0],))))
+                        else:
+                            inner_edges.append((a3, val, other, ("other", (targets[0][0],))))
+                if len(inner_edges) >= 2:
+                    return inner_edges
+            sp = _split_call(place)
+            if sp is not None:
+                # split_last()/split_first() is None exactly when the slice is empty: the same atom as `xs.len() == 0`
+                em = T("empty", sp[1])
+                for v, b in targets:
+                    edges.append((em, v == 0, b, ("eq", v)))
+                if len(targets) == 1 and not self._is_unreachable(other):
+                    edges.append((em, targets[0][0] != 0, other, ("other", (targets[0][0],))))
+                return edges
+
             vals = []
             for v, b in targets:
                 edges.append((a2, nm(v), b, ("eq", v)))
